@@ -785,6 +785,36 @@ func genC17(r *hx.R, tier string, scratch string) (*hx.Suite, error) {
 		f(sp)
 		add(specDoc(sp), sp, "typed-value", false)
 	}
+	// members the schema requires, present and EMPTY: the document is written by the harness (the member is there, holding ""),
+	// the typed value holds "" in the field; the in-memory route must see the member like every other route does (an encoder
+	// that leaves an empty required member out makes Validate(spec) disagree with the bytes of the same document)
+	for _, set := range []func(sp *specs.Spec, v string){
+		func(sp *specs.Spec, v string) { sp.Kind = v },
+		func(sp *specs.Spec, v string) { sp.Version = v },
+		func(sp *specs.Spec, v string) { sp.Devices[0].Name = v },
+		func(sp *specs.Spec, v string) { sp.Devices[0].ContainerEdits.DeviceNodes[0].Path = v },
+		func(sp *specs.Spec, v string) { sp.Devices[0].ContainerEdits.Hooks[0].HookName = v },
+		func(sp *specs.Spec, v string) { sp.Devices[0].ContainerEdits.Hooks[0].Path = v },
+		func(sp *specs.Spec, v string) { sp.Devices[0].ContainerEdits.Mounts[0].HostPath = v },
+		func(sp *specs.Spec, v string) { sp.Devices[0].ContainerEdits.Mounts[0].ContainerPath = v },
+	} {
+		const mark = "@@required-member@@"
+		marked := fullSpec17()
+		marked.ContainerEdits = specs.ContainerEdits{Env: []string{"A=b"}, AdditionalGIDs: []uint32{5}}
+		set(marked, mark)
+		text, err := json.Marshal(marked)
+		if err != nil || !strings.Contains(string(text), `"`+mark+`"`) {
+			continue
+		}
+		d, err := docFromJSON([]byte(strings.Replace(string(text), `"`+mark+`"`, `""`, 1)))
+		if err != nil {
+			continue
+		}
+		sp := fullSpec17()
+		sp.ContainerEdits = specs.ContainerEdits{Env: []string{"A=b"}, AdditionalGIDs: []uint32{5}}
+		set(sp, "")
+		add(d, sp, "typed-value-required-member-empty", false)
+	}
 	// every member / element removed in turn
 	for k := range nodes17(fullDoc) {
 		d, _ := mutateAt(fullDoc, k, func(nr nodeRef) { nr.remove() })
